@@ -22,8 +22,15 @@ vars == <<tid, verdict>>
 PFmt(sd) == sd[1]    PProg(sd) == sd[2]   PLs(sd) == sd[3]   PNls(sd) == sd[4]
 PGs(sd) == sd[5]     PNgs(sd) == sd[6]    PRg(sd) == sd[7]   PVsi(sd) == sd[8]
 OName(o) == o[1]     OIdx(o) == o[2]      OStrict(o) == o[3] OLim(o) == o[4]   OWm(o) == o[5]
-ODw(o) == o[6]       ONw(o) == o[7]       OAdv(o) == o[8]    OEnd(o) == o[9]   ONl(o) == o[10]
-ORaised(o) == o[11]
+\* the tail is omitted when it is the default: the original's Private widths, no absolute advance,
+\* endchar not required, no region check, did not raise
+OExt(o) == Len(o) > 5
+ODw(t, o) == IF OExt(o) THEN o[6] ELSE t.dw
+ONw(t, o) == IF OExt(o) THEN o[7] ELSE t.nw
+OAdv(o) == IF OExt(o) THEN o[8] ELSE 0
+OEnd(o) == IF OExt(o) THEN o[9] ELSE 0
+ONl(o) == IF OExt(o) THEN o[10] ELSE 0
+ORaised(o) == IF OExt(o) THEN o[11] ELSE 0
 
 HardLimit == 513     \* Run never refuses below this; the declared limit is compared with mx
 
@@ -33,8 +40,8 @@ CxOf(sd, loc) ==
 
 WidthOK(t, a, b, o) ==
   CASE OWm(o) = "same" -> b.w = a.w
-    [] OWm(o) = "adv"  -> Advance(b, ODw(o), ONw(o)) = Advance(a, t.dw, t.nw)
-    [] OWm(o) = "abs"  -> Advance(b, ODw(o), ONw(o)) = OAdv(o)
+    [] OWm(o) = "adv"  -> Advance(b, ODw(t, o), ONw(t, o)) = Advance(a, t.dw, t.nw)
+    [] OWm(o) = "abs"  -> Advance(b, ODw(t, o), ONw(t, o)) = OAdv(o)
     [] OWm(o) = "none" -> b.w = <<>>
     [] OWm(o) = "skip" -> TRUE
 
